@@ -155,8 +155,10 @@ fn judge(c: &Case, text: &str) -> Option<(String, String)> {
     None
 }
 
+/// Inputs for C13: without receiver-less virtual functions (their wrappers cannot name a
+/// vftable to dispatch through; outside the documented fragment).
 pub fn all_inputs() -> Vec<pipe::Input> {
-    cases().iter().map(input_of).collect()
+    cases().iter().filter(|c| c.recv_v != Recv::None).map(input_of).collect()
 }
 
 pub fn run(tier: &str, only: Option<&Value>) -> i32 {
